@@ -71,6 +71,10 @@ NOTES = {
     "C35-e": "legacy data continuing across 2-4 Resources (which exposed defect N-12); patch rebased by hand onto fix a6cc92a",
     "C36-e": "a gap and an overlap of equal size in one concatenation",
     "C42-e": "a later subscriber raising on the RunStart",
+    # round 4 (fresh agents, engine-level properties again)
+    "C03-f": "(same change as C03-c/C05-c: caught by C05's `norewind_point` plan)",
+    "C11-f": "request pairs made in ONE event-loop turn + oracle: both must be served",
+    "C13-f": "a second pause landing inside the replay of the command the first interruption cancelled",
 }
 
 
